@@ -58,7 +58,12 @@ def _f8_absent_level(cfg, sz):
     return 'level' in (cfg.get('absent') or {})
 
 
-PREDS = {'f1_short': _f1_short, 'f2_region': _f2_region, 'f8_absent_level': _f8_absent_level,
+def _f13_none_unpad(cfg, sz):
+    return cfg.get('none_level') is not None and bool(sz.get('none_needs_unpad'))
+
+
+PREDS = {'f13_none_unpad': _f13_none_unpad,
+         'f1_short': _f1_short, 'f2_region': _f2_region, 'f8_absent_level': _f8_absent_level,
          'f11_tiny': lambda cfg, sz: sz.get('H', 9) <= 2 or sz.get('W', 9) <= 2}
 
 
